@@ -223,13 +223,23 @@ def check_partial(col, repo: Repo):
                 ok = True
                 reached = 0
                 # control dependence first (closed guard set; includes the earlier operands of the and/or the read stands in)
-                from sa.core.paths import _len_interval as _li
-                dominated = False
-                for t, tr_ in guards(f.node, u, parent_map(f.node)):
-                    for cand in {key, src(u.value)}:
-                        iv = _li(t, cand, tr_)
-                        if iv is not None and iv[0] >= k + 1:
-                            dominated = True
+                from sa.core.paths import len_values, len_aliases, _LEN_ALL
+                al = len_aliases(f.node)
+
+                def bounded(conds, cands):
+                    """the tests known on the way (each with its truth value) leave only lengths > k"""
+                    for cand in cands:
+                        vs = _LEN_ALL
+                        for t, tr_ in conds:
+                            if isinstance(t, (ast.For, ast.While)):
+                                continue
+                            x = len_values(t, cand, tr_, al)
+                            if x is not None:
+                                vs = vs & x
+                        if vs and min(vs) >= k + 1:
+                            return True
+                    return False
+                dominated = bounded(guards(f.node, u, parent_map(f.node)), {key, src(u.value)})
                 for p in ([] if dominated else paths):
                     # find the event whose statement contains this subscript
                     idx = None
@@ -241,13 +251,8 @@ def check_partial(col, repo: Repo):
                     if idx is None:
                         continue
                     reached += 1
-                    good = False
-                    for e in p.events[:idx + 1]:
-                        if e.kind in ("cond", "assert"):
-                            for cand in {key, src(u.value)}:
-                                iv = len_constraint(e, cand)
-                                if iv is not None and iv[0] >= k + 1:
-                                    good = True
+                    good = bounded([(e.node, True if e.kind == "assert" else e.taken) for e in p.events[:idx + 1] if e.kind in ("cond", "assert")],
+                                   {key, src(u.value)})
                             # isinstance(node.args[0], ...) style guards do not bound the length
                     if not good:
                         ok = False
@@ -259,13 +264,13 @@ def check_partial(col, repo: Repo):
                         ok = True
                         for g, c in sites:
                             pmg = parent_map(g.node)
-                            good = False
+                            alg = len_aliases(g.node)
+                            vs = _LEN_ALL
                             for t, tr_ in guards(g.node, c, pmg):
-                                from sa.core.paths import _len_interval
-                                iv = _len_interval(t, src(u.value), tr_)
-                                if iv is not None and iv[0] >= k + 1:
-                                    good = True
-                            ok = ok and good
+                                x = len_values(t, src(u.value), tr_, alg)
+                                if x is not None:
+                                    vs = vs & x
+                            ok = ok and bool(vs) and min(vs) >= k + 1
                 col.add("C09.R3", f.short, f"indexed-read:{src(u)}", dominated or (ok and reached > 0),
                         f"`{src(u)}` reads element {k} of a list-valued field: on every path (or at every call site) a length test that raises/asserts "
                         "must come first, otherwise a malformed call either crashes obscurely or, with a shorter guard, silently ignores arguments",
